@@ -262,12 +262,24 @@ func (c *FnCtx) specCall(st *State, fn *ssa.Function, args []*Term) []*Term {
 	ts := c.eng.ts
 	si := c.eng.specInfo(fn)
 	var uargs []*Term
-	for _, h := range si.heaps {
-		srt, ok := c.eng.heapSorts[h]
-		if !ok {
-			continue // heap never materialised in this run: the function cannot depend on anything we know
+	shallow := false
+	if c.fc != nil {
+		for _, o := range c.fc.OpaqueShallow {
+			if o == fn.Name() {
+				shallow = true
+			}
 		}
-		uargs = append(uargs, c.heap(st, h, srt))
+	}
+	if shallow {
+		uargs = c.shallowArgs(st, fn, si, args)
+	} else {
+		for _, h := range si.heaps {
+			srt, ok := c.eng.heapSorts[h]
+			if !ok {
+				continue // heap never materialised in this run: the function cannot depend on anything we know
+			}
+			uargs = append(uargs, c.heap(st, h, srt))
+		}
 	}
 	for _, g := range si.globals {
 		uargs = append(uargs, c.getCell(st, c.eng.globalCell(g)))
@@ -280,13 +292,18 @@ func (c *FnCtx) specCall(st *State, fn *ssa.Function, args []*Term) []*Term {
 		if nres > 1 {
 			name = fmt.Sprintf("spec!%s!%d", fn.Name(), i)
 		}
+		if shallow {
+			name = "shallow!" + name
+		}
 		out[i] = ts.UF(name, c.eng.tc.SortOf(fn.Signature.Results().At(i).Type()), uargs...)
 	}
 	if c.specDepth == nil {
 		c.specDepth = map[*ssa.Function]int{}
 		c.specSeen = map[string]bool{}
 	}
-	c.specFrameLemma(st, fn, si, uargs, args, out)
+	if !shallow {
+		c.specFrameLemma(st, fn, si, uargs, args, out)
+	}
 	if gfc := c.eng.ld.byFn[fn]; gfc != nil && len(gfc.Ensures) > 0 && !(fn == c.top) {
 		ck := fmt.Sprintf("contract@%d", out[0].id)
 		if !c.specSeen[ck] {
